@@ -65,6 +65,11 @@ class StateSpace:
             and state.grid.area.contains(state.agent.position)
             and isinstance(state.agent.orientation, Orientation)
             and type(state.agent.grid_object) in self._agent_object_types
+            and all(
+                state.grid[position].color in self.colors
+                for position in state.grid.area.positions()
+            )
+            and state.agent.grid_object.color in self.colors
         )
 
     @property
